@@ -177,3 +177,30 @@ Proof.
       constructor; [exact C | apply IH; assumption].
     + rewrite (classify_none h l C). apply IH; exact H.
 Qed.
+
+(** ** the caller's discard ([deliver], modelled after ethermint's ApplyTransaction) *)
+Lemma deliver_fail {S} (exec : msg -> S -> outcome S) evm logs s r s' :
+  deliver exec evm logs s = (r, s') -> r <> Ok tt -> s' = s.
+Proof.
+  unfold deliver. destruct (multi_hook exec logs (evm s)) as [[u| |] s1]; intros [= <- <-] N;
+    [destruct u; exfalso; apply N; reflexivity | reflexivity | reflexivity].
+Qed.
+
+Lemma deliver_ok {S} (exec : msg -> S -> outcome S) evm logs s s' :
+  deliver exec evm logs s = (Ok tt, s') -> multi_hook exec logs (evm s) = (Ok tt, s').
+Proof.
+  unfold deliver. destruct (multi_hook exec logs (evm s)) as [[u| |] s1]; intros [= <-]; try discriminate.
+  destruct u; reflexivity.
+Qed.
+
+(** an invariant of the router's handlers is an invariant of any hook run *)
+Lemma run_items_invariant {S} (exec : msg -> S -> outcome S) (P : S -> Prop) :
+  (forall m s s', exec m s = Ok s' -> P s -> P s') ->
+  forall items s r s', P s -> run_items S exec items s = (r, s') -> P s'.
+Proof.
+  intros Hstep. induction items as [|x items IH]; intros s r s' Hs H.
+  - cbn in H. inversion H; subst; exact Hs.
+  - destruct x as [m| |]; cbn in H; try (inversion H; subst; exact Hs).
+    destruct (exec m s) as [s1| |] eqn:E; try (inversion H; subst; exact Hs).
+    eapply IH; [eapply Hstep; eauto | exact H].
+Qed.
